@@ -91,7 +91,7 @@ var vC17MatchProgs = []struct {
 	{"i = 0; while i < 3 { i = i + 1; x9 }", 3, "x9"}, {"func fn1() { return x8 }; fn1() + fn1()", 2, "x8"}, {"`{x6}`", 1, "x6"}, {"x", 0, ""}, {"xx", 0, ""},
 }
 
-//vh:prop=C17 tiers=quick,thorough sigkeys=prog,kind budget_s=600 bounds="10 programs using a custom dice syntax x<digits> registered as a regex and as a stream parser: the handler runs exactly once per evaluation of the operand (also inside loops, functions, templates), receives exactly the matched text as group 0, its result is used by copy (mutating it afterwards does not change the evaluation result), and text not matching the syntax never reaches it"
+//vh:prop=C17 tiers=quick,thorough sigkeys=prog,kind,decliner budget_s=600 bounds="10 programs using a custom dice syntax x<digits> registered as a regex and as a stream parser, alone or after an unrelated stream syntax whose parser reads ahead (1 rune / 2 runes and digits) and declines without rewinding: the handler runs exactly once per evaluation of the operand (also inside loops, functions, templates), receives exactly the matched text as group 0, its result is used by copy (mutating it afterwards does not change the evaluation result), and text not matching the syntax never reaches it"
 func VH_C17_match() {
 	k := vChoice("prog", len(vC17MatchProgs))
 	pr := vC17MatchProgs[k]
@@ -109,6 +109,23 @@ func VH_C17_match() {
 			got = append(got, "<no groups>")
 		}
 		return shared, "", nil
+	}
+	// optionally an unrelated stream syntax registered first whose parser reads
+	// ahead and declines without rewinding (it is the engine's job to rewind)
+	declinerRan := false
+	if dk := vChoice("decliner", 3); dk > 0 {
+		vAssert(vm.RegCustomDiceParser(func(ctx *Context, s *CustomDiceStream) (*CustomDiceParseResult, error) {
+			s.Read()
+			if dk == 2 {
+				s.Read()
+				s.ReadDigits()
+				return &CustomDiceParseResult{Matched: false}, nil
+			}
+			return nil, nil
+		}, func(ctx *Context, groups []string, payload any) (*VMValue, string, error) {
+			declinerRan = true
+			return NewIntVal(0), "", nil
+		}) == nil, "parser-registers")
 	}
 	if vChoice("kind", 2) == 0 {
 		vAssert(vm.RegCustomDice(`^x(\d+)`, handler) == nil, "regex-registers")
@@ -129,6 +146,7 @@ func VH_C17_match() {
 	if pr.calls > 0 {
 		vAssert(err == nil, "custom-dice-program-evaluates")
 	}
+	vAssert(!declinerRan, "declining-syntax-never-handles")
 	vAssert(len(got) == pr.calls, "handler-runs-once-per-evaluation-of-the-operand")
 	for _, g := range got {
 		vAssert(g == pr.matched, "handler-receives-exactly-the-matched-text")
